@@ -265,10 +265,19 @@ def call_re(ex, fname, args, p, node):
     """re.fullmatch / match / search / split / findall on (pattern, str): total; results are pure functions of the arguments"""
     S = ex.S
     ln = getattr(node, 'lineno', None)
+    if fname == 'compile':
+        # re.compile(<literal>) inside a function: an immutable pattern object that remembers its literal (flags / non-literal patterns: not modelled)
+        if len(args) == 1 and isinstance(args[0], VStr) and args[0].lit is not None:
+            try: __import__('re').compile(args[0].lit)
+            except Exception: return [(p, sx.Raised(VExc('re.error', where=ln)))]
+            g = sx.VGlobal('re.compile:' + args[0].lit); g.relit = args[0].lit
+            return [(p, g)]
+        return ex.opaque_call('re.compile', p, node)
     if len(args) < 2 or not isinstance(args[1], VStr):
         if len(args) >= 2 and isinstance(args[1], VUnk): return [(p, VUnk('re')), (p.fork(), sx.Raised(VExc('TypeError', where=ln)))]
         return [(p, sx.Raised(VExc('TypeError', where=ln)))]
     pat = args[0]
+    if getattr(pat, 'relit', None) is not None: pat = VStr(lit=pat.relit, code=z3.IntVal(lit_code(pat.relit)))
     pid = z3.IntVal(lit_code(pat.lit)) if isinstance(pat, VStr) and pat.lit is not None else (pat.code if isinstance(pat, VStr) else z3.IntVal(lit_code(getattr(pat, 'name', 'pattern'))))
     if fname in ('fullmatch', 'match', 'search'):
         hit = S.app('RE_' + fname, [pid, args[1].code], B)
